@@ -118,6 +118,8 @@ def getattr_obj(I, obj, ty, name):
     else:
         has_field = name in declared_fields(I, ty)
     if has_field:
+        if key not in ctx.partial_objs and ty.fields and name not in ty.fields and not getattr(ty, "open_shape", False):
+            raise Unsupported("attribute %s of %s is assigned by __init__ but not described by the contract's shape (contract does not cover this code)" % (name, ty.cls.key))
         return ctx.typed(ctx.load_raw(ctx.ref_id(obj), name), ty.fields.get(name))
     if name in ov:
         v = ov[name]
